@@ -358,7 +358,13 @@ func (bs *blockState) havocModifies(spec *FuncSpec, vars map[string]Val, ins ssa
 			bs.st.m["alloc"] = e.fresh("alloc", SInt)
 			e.assume(bs.g, app("<=", old, bs.st.m["alloc"]))
 		default:
-			for _, ks := range e.resolveModifies(m) {
+			var kss [][2]string
+			if strings.HasPrefix(m, "map:") {
+				kss = e.resolveMapItem(strings.TrimPrefix(m, "map:"))
+			} else {
+				kss = e.resolveHeapItem(m)
+			}
+			for _, ks := range kss {
 				e.heapKey(bs.st, ks[0], ks[1])
 				bs.st.m[ks[0]] = e.fresh("hv."+ks[0], ks[1])
 			}
